@@ -1,6 +1,7 @@
 package main
 
 import (
+	"go/token"
 	"fmt"
 	"go/types"
 	"sort"
@@ -348,6 +349,75 @@ func runC08(p *Program, r *Report) {
 	}
 	if n == 0 {
 		r.OK("C08.R4", "template#unchecked-assertions", "", "no unchecked type assertion in the reachable functions of packages template and safehtmlutil")
+	}
+	// ---- R7 indices that walk backwards -----------------------------------------------------
+	// Implicit index panics are not decided in general. One shape is: an index that a loop decrements is used to
+	// index although neither the loop condition nor a dominating test bounds it from below.
+	nb := 0
+	for _, f := range fl {
+		if f.Pkg == nil || (f.Pkg != tsp && f.Pkg.Pkg.Path() != pkgUtil) {
+			continue
+		}
+		for _, b := range f.Blocks {
+			for _, in := range b.Instrs {
+				var idx ssa.Value
+				switch x := in.(type) {
+				case *ssa.Index:
+					idx = x.Index
+				case *ssa.IndexAddr:
+					idx = x.Index
+				case *ssa.Lookup:
+					if isStringish(x.X.Type()) {
+						idx = x.Index
+					}
+				}
+				ph, ok := idx.(*ssa.Phi)
+				if !ok {
+					continue
+				}
+				// decremented around a loop
+				dec := false
+				for _, e := range ph.Edges {
+					if bo, ok := e.(*ssa.BinOp); ok && bo.Op == token.SUB && bo.X == ssa.Value(ph) {
+						if k, ok := constInt(bo.Y); ok && k > 0 {
+							dec = true
+						}
+					}
+				}
+				if !dec {
+					continue
+				}
+				nb++
+				// bounded from below: a guard on the way compares the index (or index±const) with something using >, >=, <, <=, !=
+				bounded := false
+				isIdx := func(v ssa.Value) bool {
+					if v == ssa.Value(ph) {
+						return true
+					}
+					if bo, ok := v.(*ssa.BinOp); ok && (bo.Op == token.ADD || bo.Op == token.SUB) && bo.X == ssa.Value(ph) {
+						return true
+					}
+					return false
+				}
+				for _, g := range GuardsOf(b) {
+					bo, ok := g.Cond.(*ssa.BinOp)
+					if !ok {
+						continue
+					}
+					switch bo.Op {
+					case token.GTR, token.GEQ, token.LSS, token.LEQ, token.NEQ:
+						if isIdx(bo.X) || isIdx(bo.Y) {
+							bounded = true
+						}
+					}
+				}
+				c := fmt.Sprintf("backward-index:%s@%s", strings.TrimPrefix(fnName(f), pkgTemplate+"."), p.Pos(in.Pos()))
+				r.Check(bounded, "C08.R7", c, p.Pos(in.Pos()), "an index that is decremented in a loop is used only under a comparison that bounds it", "an index that a loop decrements is used without any test that bounds it from below: the loop can walk past the start of the slice and panic with an index out of range (reachable from Execute)")
+			}
+		}
+	}
+	if nb == 0 {
+		r.OK("C08.R7", "template#backward-indices", "", "no index in the reachable functions is decremented by a loop")
 	}
 }
 
